@@ -81,6 +81,10 @@ def case_groups_str(case):
 
 
 def exe_line(case, cmd='EXE'):
+    # case['via']: 0 options through the constructor, 1 through the public setters on an object constructed with other
+    # values, 2 through the setters after that object has executed once (harness commands EXE1/EXE2/RUN1/RUN2)
+    if case.get('via'):
+        cmd = cmd + str(case['via'])
     return '%s %s %s %d %d %s %s' % (cmd, fhex(case['ml']), fhex(case['at']), case.get('pc', 0), case.get('rev', 0),
                                      fhex(case['delta']), case_groups_str(case))
 
@@ -421,6 +425,38 @@ def gen_polyline(rng, S, n, x0=0, y0=0):
     raise vf.Infra('polyline generator failed')
 
 
+def dedup_path(p, closed):
+    """what the Group constructor's StripDuplicates leaves: no consecutive equal vertices; for closed paths (Polygon,
+    Joined) no trailing copies of the first vertex"""
+    q = []
+    for v in p:
+        if not q or tuple(q[-1]) != tuple(v):
+            q.append(tuple(v))
+    if closed:
+        while len(q) > 1 and q[-1] == q[0]:
+            q.pop()
+    return q
+
+
+def add_dups(rng, p, closed):
+    """the same path written with repeated vertices: one or two vertices doubled (tripled), and -- for a closed path --
+    the first vertex repeated at the end (the common way of storing a ring).  Ordinary input: the offsetter must treat it
+    like the path without the repetitions."""
+    if not p:
+        return list(p)
+    q = []
+    k = rng.below(len(p)); k2 = rng.below(len(p)) if rng.chance(1, 2) else -1
+    for i, v in enumerate(p):
+        q.append(v)
+        if i == k:
+            q += [v] * rng.choice([1, 1, 2])
+        if i == k2 and k2 != k:
+            q.append(v)
+    if closed and len(p) >= 3 and rng.chance(3, 4):
+        q += [p[0]] * rng.choice([1, 1, 1, 2])
+    return q
+
+
 def qdelta(x):
     """quantise to 1/64 so that rationals stay small"""
     return round(x * 64) / 64.0
@@ -651,7 +687,8 @@ def c06_key(case, mode, sol=None):
 
 
 def c06_input_paths(case):
-    return [p for g in case['groups'] for p in g['paths'] if len(p) > 0]
+    # the specification is about the polygons, however they are written (repeated vertices, closing vertex)
+    return [dedup_path(p, True) for g in case['groups'] for p in g['paths'] if len(p) > 0]
 
 
 def c06_prepare(rng, case, sol, ngrid=8, budget=600):
@@ -773,7 +810,7 @@ def joined_leak_shape(paths):
 def c07_prepare(rng, case, sol, ngrid=7, budget=650):
     g = case['groups'][0]
     jt, et = g['jt'], g['et']
-    paths = g['paths']
+    paths = [dedup_path(p, et == 1) for p in g['paths']]      # the polylines, however they are written
     absd = abs(fr(case['delta']))
     tol = prop_tol(jt, case['at'], absd, with_arc=(jt == 2 or et == 4))
     fj = join_factor(jt, case['ml'])
@@ -915,6 +952,9 @@ def plan_tie(ctx, T, cases, label, pid_kind):
             viol(ctx, 'tie-break:OffsetPlan.mk_group', '%s: Group constructor differs from the model: library lens=%s low=%s rev=%s, model lens=%s low=%s rev=%s'
                           % (label, hg['lens'], hg['low'], hg['isrev'], [len(p) for p in ps], low, isrev),
                           replay=dict(kind=pid_kind, case=cases[ci], group=gi), nofail=True)
+    # temp_lim_ left by Execute must be the value for the miter limit in force (however it was supplied)
+    mls = sorted(set(fhex(c['ml']) for c in cases))
+    tl = dict(zip(mls, T.O(['TLIM %s' % m for m in mls]))) if mls else {}
     steps_req = {}
     for (ci, _), po in zip(plines, pouts):
         c, r = cases[ci], parsed[ci]
@@ -925,6 +965,14 @@ def plan_tie(ctx, T, cases, label, pid_kind):
         for o in r['obs']:
             first.setdefault((o['gi'], o['pi'], o['kind']), []).append(o)
         ctx.count('check_reverse_compared', 1)
+        if parse_plan(po)['mode'] == 'offset':
+            ctx.count('temp_lim_compared', 1)
+            if not hexeq(r['final'][5], tl[fhex(c['ml'])]):
+                nbreak += 1
+                viol(ctx, 'tie-break:OffsetGeom.temp_lim', '%s: temp_lim_ after Execute is %s, the model derives %s from the miter limit %s in force '
+                     '(options supplied %s)' % (label, r['final'][5], tl[fhex(c['ml'])], c['ml'],
+                                                ['by the constructor', 'by the setters', 'by the setters after an Execute'][c.get('via', 0)]),
+                     replay=dict(kind=pid_kind, case=c), nofail=True)
         if pl['mode'] != 'nothing' and pl['fillneg'] != r['paths_reversed']:
             nbreak += 1
             viol(ctx, 'tie-break:OffsetPlan.check_reverse', '%s: CheckReverseOrientation returns %d, the model %d (groups: %s)'
